@@ -6,6 +6,7 @@ import (
 	"errors"
 	"fmt"
 	"strconv"
+	"sync/atomic"
 
 	sentinel "github.com/alibaba/sentinel-golang/api"
 	"github.com/alibaba/sentinel-golang/core/base"
@@ -157,6 +158,12 @@ var cur *runCtx
 type listener struct{}
 
 func (listener) note(rule circuitbreaker.Rule, from circuitbreaker.State, to int, s snapT) {
+	if st := stress; st != nil {
+		if f := stateOf(from); rule.Resource == st.res && f >= 0 {
+			atomic.AddInt64(&st.cnt[f][to], 1)
+		}
+		return
+	}
 	if cur == nil || rule.Resource != cur.res {
 		return
 	}
